@@ -2,10 +2,12 @@ import DaskModel.DriverLib
 import DaskModel.Model.Chunks
 import DaskModel.Model.Creation
 import DaskModel.Model.Structural
+import DaskModel.Model.Counting
 open Dask
 open Dask.Chunks
 open Dask.Creation
 open Dask.Structural
+open Dask.Counting
 
 /-! Line-protocol handlers of group `chunks` (C23, C24, C27, C34). -/
 
@@ -235,7 +237,76 @@ def hLowerDim : Handler := handler fun args =>
   | _ => none
 
 
+
+/-! ### C27 counting -/
+
+/-- `(searchsorted right ((block…)…) (needles…))` -/
+def hSearchsorted : Handler := handler fun args =>
+  match args with
+  | [r, bs, ys] => do
+    let r ← r.toBool?
+    let bs ← bs.toNatss?
+    let ys ← ys.toNats?
+    pure (SExp.ofNats (ys.map (searchsorted r bs)))
+  | _ => none
+
+/-- `(bincount ((block…)…) minlength)` ↦ `(merged-per-chunk whole)` -/
+def hBincount : Handler := handler fun args =>
+  match args with
+  | [bs, m] => do
+    let bs ← bs.toNatss?
+    let m ← m.toNat?
+    pure (.list [SExp.ofNats (bincountAgg (bs.map (fun b => bincount b m))), SExp.ofNats (bincount bs.flatten m)])
+  | _ => none
+
+/-- `(histogram (edges…) ((block…)…))` -/
+def hHistogram : Handler := handler fun args =>
+  match args with
+  | [e, bs] => do
+    let e ← e.toNats?
+    let bs ← bs.toNatss?
+    pure (.list [SExp.ofNats (histMerge e bs), SExp.ofNats (histBlock e bs.flatten)])
+  | _ => none
+
+def encRows (rs : List URow) : SExp := .list (rs.map (fun r => SExp.ofNats [r.value, r.index, r.count]))
+
+/-- `(unique ((block…)…))` ↦ `(chunked whole)` rows `(value first-index count)` -/
+def hUnique : Handler := handler fun args =>
+  match args with
+  | [bs] => do
+    let bs ← bs.toNatss?
+    pure (.list [encRows (uniqueChunked bs), encRows (uniqueSpec bs.flatten)])
+  | _ => none
+
+/-- `(unique_internal ((v i c)…))` -/
+def hUniqueInternal : Handler := handler fun args =>
+  match args with
+  | [rows] => do
+    let rows ← rows.toNatss?
+    let rows ← rows.mapM (fun r => match r with | [v, i, c] => some (URow.mk v i c) | _ => none)
+    pure (encRows (uniqueInternal rows))
+  | _ => none
+
+def hNonzero : Handler := handler fun args =>
+  match args with
+  | [bs] => do
+    let bs ← bs.toNatss?
+    pure (.list [SExp.ofNats (nonzeroChunked 0 bs), SExp.ofNats (nonzeroSpec bs.flatten), .int (countNonzeroChunked bs)])
+  | _ => none
+
+/-- `(coarsen_sum d ((block…)…))` -/
+def hCoarsen : Handler := handler fun args =>
+  match args with
+  | [d, bs] => do
+    let d ← d.toNat?
+    let bs ← bs.toNatss?
+    pure (.list [SExp.ofNats (coarsenChunked Chunks.sum d bs), SExp.ofNats (coarsenBlock Chunks.sum d bs.flatten)])
+  | _ => none
+
+
 def table : List (String × Handler) := [
+  ("searchsorted", hSearchsorted), ("bincount", hBincount), ("histogram", hHistogram), ("unique", hUnique),
+  ("unique_internal", hUniqueInternal), ("nonzero", hNonzero), ("coarsen_sum", hCoarsen),
   ("concat_plan", hConcatPlan), ("pad", hPad), ("pad_chunks", hPadChunks), ("roll", hRoll),
   ("expand_tuple", hExpandTuple), ("contract_tuple", hContractTuple), ("lower_dim", hLowerDim),
   ("arange", hArange), ("linspace", hLinspace), ("eye", hEye), ("diag", hDiag),
